@@ -155,7 +155,11 @@ where
     let mut tree_b = Tree::new("goal", start.len());
     tree_a.add_vertex(start);
     tree_b.add_vertex(goal);
+    #[cfg(rs_opw_verif)]
+    crate::verif_hooks::point("rrt.start");
     for _ in 0..num_max_try {
+        #[cfg(rs_opw_verif)]
+        crate::verif_hooks::point("rrt.stop.load");
         if stop.load(Ordering::Relaxed) {
             return Err("Cancelled".to_string());
         }
